@@ -135,11 +135,19 @@ public:
   OutflowHydroBoundary outflow;
   IonizationVariables ion;
 
-  Flat(const Problem &p)
+  // layout: number of subgrids per axis of the execution this reference is
+  // compared with.  It only selects how the cell size is rounded: a grid of ns
+  // subgrids of m cells derives it as (side/ns)/m and its inverse as
+  // m/(side/ns); for box sides that are not dyadic these differ from side/n and
+  // n/side in the last bit, and the scheme contains decisions (limiter and
+  // Riemann solver branches) that such a bit can flip.
+  Flat(const Problem &p, const int *layout = nullptr)
       : P(p), hydro(p.gamma, 100., 1.e4, 1.e99, false), c(p.N), lim(10 * p.N) {
     for (int a = 0; a < 3; ++a) {
-      d[a] = P.side[a] / P.n[a];
-      dinv[a] = P.n[a] / P.side[a];
+      const int ns = layout ? layout[a] : 1;
+      const double sub = P.side[a] / ns;
+      d[a] = sub / (P.n[a] / ns);
+      dinv[a] = (P.n[a] / ns) / sub;
     }
     area[0] = d[1] * d[2];
     area[1] = d[0] * d[2];
@@ -212,6 +220,10 @@ public:
       h.delta_conserved(j) = 0.;
   }
 
+  // (debugging aid) called after the gradient sweeps (1), the slope limiter (2),
+  // the prediction (3) and the flux sweeps (4)
+  std::function<void(int)> phase_hook;
+
   StepInfo step(const double dt) {
     StepInfo s;
     s.dt = dt;
@@ -233,12 +245,18 @@ public:
               a, pos, c[L], boundary(P.bc[2 * a + (o < 0)]), o * dinv[a],
               &lim[10 * L]);
         });
+    if (phase_hook)
+      phase_hook(1);
     // 2. slope limiter, 3. half step prediction
     const CoordinateVector<> dd(d[0], d[1], d[2]);
     for (int g = 0; g < P.N; ++g)
       hydro.apply_slope_limiter(c[g], &lim[10 * g], dd);
+    if (phase_hook)
+      phase_hook(2);
     for (int g = 0; g < P.N; ++g)
       hydro.predict_primitive_variables(c[g], 0.5 * dt);
+    if (phase_hook)
+      phase_hook(3);
     // 4. fluxes: every face once, flux taken from a scratch pair so that its
     // value is known
     const double g1 = P.gamma;
@@ -315,6 +333,8 @@ public:
                             (0.5 * rho * v2 + g1 / (g1 - 1.) * Pr) * sp;
           }
         });
+    if (phase_hook)
+      phase_hook(4);
     // 5. conserved update (no gravity, no energy terms) + positivity safeguard
     for (int g = 0; g < P.N; ++g) {
       for (int j = 0; j < 5; ++j) {
@@ -409,6 +429,7 @@ public:
 #endif
   std::vector<HydroVariables *> cell; // global order
   std::string error;
+  std::function<void(int)> phase_hook; // (debugging aid, plain driver only)
 
   Subject(const Problem &p, const int layout[3])
       : P(p), hydro(p.gamma, 100., 1.e4, 1.e99, false) {
@@ -583,11 +604,18 @@ public:
         }
       }
       if (phase == 0) {
+        if (phase_hook)
+          phase_hook(1);
         for (int s = 0; s < nsub; ++s)
           (*gc->get_subgrid(s)).apply_slope_limiter(hydro);
+        if (phase_hook)
+          phase_hook(2);
         for (int s = 0; s < nsub; ++s)
           (*gc->get_subgrid(s)).predict_primitive_variables(hydro, 0.5 * dt);
-      }
+        if (phase_hook)
+          phase_hook(3);
+      } else if (phase_hook)
+        phase_hook(4);
     }
     for (int s = 0; s < nsub; ++s)
       (*gc->get_subgrid(s)).update_conserved_variables(dt);
